@@ -188,6 +188,12 @@ func (r *renderer) stmt(n N) {
 		r.line("defer " + Expr(node(n["e"])))
 	case "go":
 		r.line("go " + Expr(node(n["e"])))
+	case "delete":
+		if k := list(n, "key"); len(k) == 1 {
+			r.line("delete(" + Expr(node(n["e"])) + ", " + Expr(node(k[0])) + ")")
+		} else {
+			r.line("delete(" + Expr(node(n["e"])) + ")")
+		}
 	case "raw":
 		r.line(str(n, "src"))
 	default:
@@ -197,8 +203,8 @@ func (r *renderer) stmt(n N) {
 
 // cond renders an expression in a position that is followed by '{' (a map literal there needs parentheses).
 func cond(n N) string {
-	if k := str(n, "k"); k == "map" || k == "fn" {
-		return "(" + Expr(n) + ")"
+	if k := str(n, "k"); k == "map" || k == "fn" || (k == "bin" && str(n, "op") == "in") {
+		return "(" + Expr(n) + ")" // (a map literal / `a in b` directly after for, if, switch reads as something else)
 	}
 	return Expr(n)
 }
@@ -239,7 +245,7 @@ func atomic(n N) bool {
 	switch str(n, "k") {
 	case "int":
 		return num(n, "i") >= 0
-	case "str", "bool", "nil", "flt", "id", "call", "list", "len", "idx", "member", "paren", "map", "acall", "hpanic":
+	case "str", "bool", "nil", "flt", "id", "call", "list", "len", "idx", "member", "paren", "map", "acall", "hpanic", "slice":
 		return true
 	}
 	return false
@@ -295,6 +301,20 @@ func Expr(n N) string {
 		return str(n, "ty") + "{" + strings.Join(p, ", ") + "}"
 	case "idx":
 		return sub(node(n["e"])) + "[" + Expr(node(n["i"])) + "]"
+	case "slice":
+		o := func(k string) string {
+			if l := list(n, k); len(l) == 1 {
+				return Expr(node(l[0]))
+			}
+			return ""
+		}
+		t := sub(node(n["e"])) + "[" + o("lo") + ":" + o("hi")
+		if len(list(n, "cap")) == 1 {
+			t += ":" + o("cap")
+		}
+		return t + "]"
+	case "opasg":
+		return sub(node(n["t"])) + " " + str(n, "op") + "= " + sub(node(n["e"]))
 	case "len":
 		return "len(" + Expr(node(n["e"])) + ")"
 	case "member":
@@ -443,6 +463,11 @@ func encStmt(s ast.Stmt) N {
 		return N{"k": "defer", "e": encExpr(x.Expr)}
 	case *ast.GoroutineStmt:
 		return N{"k": "go", "e": encExpr(x.Expr)}
+	case *ast.DeleteStmt:
+		if x.Key == nil {
+			return N{"k": "delete", "e": encExpr(x.Item), "key": []interface{}{}}
+		}
+		return N{"k": "delete", "e": encExpr(x.Item), "key": []interface{}{encExpr(x.Key)}}
 	}
 	unsupported(s)
 	return nil
@@ -522,7 +547,15 @@ func encExpr(e ast.Expr) N {
 		if id, ok := x.Item.(*ast.IdentExpr); ok && id.Lit == "harr" {
 			return N{"k": "hpanic"}
 		}
-		unsupported("slice expression")
+		o := func(e ast.Expr) []interface{} {
+			if e == nil || reflect.ValueOf(e).IsNil() {
+				return []interface{}{}
+			}
+			return []interface{}{encExpr(e)}
+		}
+		return N{"k": "slice", "e": encExpr(x.Item), "lo": o(x.Begin), "hi": o(x.End), "cap": o(x.Cap)}
+	case *ast.IncludeExpr:
+		return N{"k": "bin", "op": "in", "l": encExpr(x.ItemExpr), "r": encExpr(x.ListExpr)}
 	case *ast.LetsExpr:
 		// x++  ==  x = x + 1
 		if len(x.LHSS) == 1 && len(x.RHSS) == 1 {
@@ -534,6 +567,21 @@ func encExpr(e ast.Expr) N {
 								return N{"k": "inc", "n": id.Lit}
 							}
 						}
+					}
+				}
+			}
+		}
+		// t op= e  ==  t = t op e  (the parser uses the SAME target node on both sides)
+		if len(x.LHSS) == 1 && len(x.RHSS) == 1 {
+			if op, ok := x.RHSS[0].(*ast.OpExpr); ok {
+				switch o := op.Op.(type) {
+				case *ast.AddOperator:
+					if o.LHS == x.LHSS[0] {
+						return N{"k": "opasg", "t": encExpr(x.LHSS[0]), "op": o.Operator, "e": encExpr(o.RHS)}
+					}
+				case *ast.MultiplyOperator:
+					if o.LHS == x.LHSS[0] {
+						return N{"k": "opasg", "t": encExpr(x.LHSS[0]), "op": o.Operator, "e": encExpr(o.RHS)}
 					}
 				}
 			}
